@@ -115,7 +115,7 @@ def run_case(case):
     real_single_iface = iface.run_bldfm_single
     real_single_cli = cli.run_bldfm_single
 
-    def stub(config, tower, met_index=0, surface_flux=None, cache=None):
+    def stub(config, tower, met_index=0, *args, **kwargs):  # signature-agnostic
         st = config.met.get_step(met_index)
         calls.append((tower.name, met_index, st))
         return {"grid": None, "conc": None, "flx": None, "tower_name": tower.name, "tower_xy": (0, 0),
